@@ -1,5 +1,6 @@
 """C09 — --delete removes exactly the extraneous entries and nothing else."""
 import p_recv
+import p_sync
 from vlib import Broken, Verdict
 
 JUDGE = ("extra",)     # existence of every path (always compared) + nothing stray
@@ -30,6 +31,30 @@ def check(w):
     counts = {"traces": 0, "trace_states": 0}
     obs, rej = p_recv.run_validate_confirm(w, fam, scen, "c09", v, counts, sig, judge=JUDGE)
     nneg = p_recv.negative_controls(w, fam, obs, rej, w.seed)
+    # ---- end to end, real sender included: the I/O-error word of the file list is the SENDER's to set.  The "rs" family
+    #      (source trees with and without "b", destinations with extraneous entries, -t / -n / --delete, rule lists) in the
+    #      arrangements local and push, the command line naming the source tree and ALSO a directory that does not exist --
+    #      before it or after it.  What could be read is transferred; a deleting receiver then deletes nothing.
+    r2, _, scen2 = p_recv.design_and_generate(w, "rs", coverage=False)
+    lines = []
+    for k, s in enumerate(scen2):
+        if s["opts"]["n"]:
+            continue
+        for arr in ("local", "push"):
+            for missing in ("", "first", "last"):
+                if w.tier == "quick" and not s["opts"]["del"] and (k + len(arr) + len(missing)) % 3:
+                    continue
+                lines.append(p_sync.mk_line(s, arr, ("type", "extra"), missing=missing))
+    ecounts = {}
+    def esig(o):
+        removed = sorted({n["p"] for n in o["dst"]} - {n["p"] for n in o["final"]})
+        return {"kind": "e2e-" + ("crash" if o["result"] == "crashed" else "hang" if o["result"] == "hung" else "mismatch"), "arr": o["arr"], "delete": bool(o["opts"].get("del")),
+                "unreadable_source": o.get("missing") or "none", "removed_something": bool(removed)}
+    eobs, erej = p_sync.run_validate_confirm(w, "rs", lines, "c09e2e", v, ecounts, esig)
+    n_err_del = sum(1 for o in eobs if o.get("ioerr") and o["opts"].get("del") and o["id"] not in erej and {n["p"] for n in o["dst"]} - {n["p"] for n in o["src"]})
+    n_ok_del = sum(1 for o in eobs if not o.get("ioerr") and o["opts"].get("del") and o["id"] not in erej and {n["p"] for n in o["dst"]} - {n["p"] for n in o["final"]})
+    if not (n_err_del and n_ok_del):
+        raise Broken("vacuous end-to-end part: %d accepted runs with an unreadable source and something extraneous, %d accepted deleting runs that removed something" % (n_err_del, n_ok_del))
     def nextra(o):
         listed = {e["name"] for e in o["list"]}
         return sum(1 for n in o["dst"] if n["p"] not in listed)
@@ -43,6 +68,8 @@ def check(w):
         "scenarios": len(scen), "evaluations": len(obs), "distinct_nontrivial": nontriv, "with_several_extraneous": multi,
         "rule": "source tree x destination tree over the path universe (0..many extraneous files, directories with content, symlinks, fifos in every sort position, nested) x "
                 "{--delete, --delete with sender io error, no --delete}, run on the real client receiver (pull) and a real writable module (upload); non-trivial = at least one extraneous entry",
+        "end_to_end": {"runs": len(eobs), "with_unreadable_source_argument": sum(1 for o in eobs if o.get("ioerr")), "unreadable_and_extraneous_kept": n_err_del, "deleting_runs_that_removed": n_ok_del,
+                       "rule": "real sender and real receiver (local copy, upload to a daemon), the 'rs' family x {no unreadable source, a nonexistent source argument first, last}; validated by SyncTrace with the sender's error word = 1 exactly when a source argument could not be read"},
         "action_coverage": cov, "negative_controls": nneg, "worker_crashes": counts.get("crashed", 0),
     }
     v.assumptions = ["exclude-rule protection is modelled (prot) but the families generate no rules yet: a receiver has no rule list to honour in this code base (see DESIGN.md findings)"]
